@@ -385,7 +385,11 @@ func (g *Gen) binop(in *ssa.BinOp, st *State, reach string) {
 			g.define(in, "(div "+x.S+" "+y.S+")")
 		} else {
 			// MinInt / -1 wraps
-			g.define(in, g.wrap("(tdiv "+x.S+" "+y.S+")", t, false))
+			if isPosLit(y.S) {
+				g.define(in, tdivTerm(x.S, y.S))
+			} else {
+				g.define(in, g.wrap("(tdiv "+x.S+" "+y.S+")", t, false))
+			}
 		}
 	case token.REM:
 		g.safeObl("safe-div", "(not (= "+y.S+" 0))", reach, in.Pos(), "modulo by zero")
@@ -393,9 +397,19 @@ func (g *Gen) binop(in *ssa.BinOp, st *State, reach string) {
 		if isUnsigned(t) {
 			g.define(in, "(mod "+x.S+" "+y.S+")")
 		} else {
-			g.define(in, "(tmod "+x.S+" "+y.S+")")
+			g.define(in, tmodTerm(x.S, y.S))
 		}
 	case token.SHL:
+		if cx, ok := constInt(in.X); ok && cx.IsInt64() && cx.Int64() == 1 {
+			if _, isC := constInt(in.Y); !isC {
+				// 1 << k: a single-bit mask; remembered so that x|mask and x&mask get bit-level meaning
+				g.Ctx.declBits()
+				sv := g.define(in, "(bits.pow2 "+y.S+")")
+				g.addFact("(=> (and (<= 0 " + y.S + ") (< " + y.S + " " + fmt.Sprint(bits) + ")) (> " + sv.S + " 0))")
+				g.maskBit[sv.S] = y.S
+				return
+			}
+		}
 		if cy, ok := constInt(in.Y); ok && cy.IsInt64() && cy.Int64() < int64(bits) {
 			g.define(in, g.wrap("(* "+x.S+" "+pow2(int(cy.Int64())).String()+")", t, true))
 		} else {
@@ -408,6 +422,18 @@ func (g *Gen) binop(in *ssa.BinOp, st *State, reach string) {
 			g.define(in, g.bitFun("shr", bits, isUnsigned(t), x.S, y.S, t))
 		}
 	case token.AND:
+		if k, ok := g.maskBit[y.S]; ok {
+			sv := g.define(in, "(bits.and1 "+x.S+" "+k+")")
+			g.addFact("(= (not (= " + sv.S + " 0)) (bits.bit " + x.S + " " + k + "))")
+			g.addFact("(>= " + sv.S + " 0)")
+			return
+		}
+		if k, ok := g.maskBit[x.S]; ok {
+			sv := g.define(in, "(bits.and1 "+y.S+" "+k+")")
+			g.addFact("(= (not (= " + sv.S + " 0)) (bits.bit " + y.S + " " + k + "))")
+			g.addFact("(>= " + sv.S + " 0)")
+			return
+		}
 		if cy, ok := constInt(in.Y); ok && cy.Sign() >= 0 && new(big.Int).And(new(big.Int).Add(cy, big.NewInt(1)), cy).Sign() == 0 {
 			// x & (2^k - 1) == x mod 2^k (also for negative x in two's complement)
 			g.define(in, "(mod "+x.S+" "+new(big.Int).Add(cy, big.NewInt(1)).String()+")")
@@ -417,6 +443,16 @@ func (g *Gen) binop(in *ssa.BinOp, st *State, reach string) {
 			g.define(in, g.bitFun("and", bits, isUnsigned(t), x.S, y.S, t))
 		}
 	case token.OR:
+		if k, ok := g.maskBit[y.S]; ok {
+			sv := g.define(in, "(bits.set "+x.S+" "+k+")")
+			g.addFact(g.rangeFact(sv.S, t))
+			return
+		}
+		if k, ok := g.maskBit[x.S]; ok {
+			sv := g.define(in, "(bits.set "+y.S+" "+k+")")
+			g.addFact(g.rangeFact(sv.S, t))
+			return
+		}
 		g.define(in, g.bitFun("or", bits, isUnsigned(t), x.S, y.S, t))
 	case token.XOR:
 		g.define(in, g.bitFun("xor", bits, isUnsigned(t), x.S, y.S, t))
